@@ -347,6 +347,16 @@ func c19r9(p *Program, r *Report) {
 	info := g.Info
 	facts := g.GuardFacts()
 	n := 0
+	// the spellings of the constant 1 used in the function
+	ones := map[string]bool{"1": true}
+	ast.Inspect(fi.Decl.Body, func(x ast.Node) bool {
+		if e, isE := x.(ast.Expr); isE {
+			if tv, has := info.Types[e]; has && tv.Value != nil && tv.Value.ExactString() == "1" {
+				ones[strings.ReplaceAll(exprStr(e), " ", "")] = true
+			}
+		}
+		return true
+	})
 	for _, e := range g.Exits() {
 		rs, ok := e.Node.(*ast.ReturnStmt)
 		if !ok || len(rs.Results) != 1 {
@@ -361,8 +371,11 @@ func c19r9(p *Program, r *Report) {
 		okV := false
 		for atom, v := range f.m {
 			a := strings.ReplaceAll(atom, " ", "")
-			if strings.Contains(a, ".Version()") && (strings.HasSuffix(a, "==1") || strings.HasPrefix(a, "1==")) && !v {
-				okV = true
+			if i := strings.Index(a, "=="); i > 0 && !v {
+				l, rr := a[:i], a[i+2:]
+				if (strings.HasSuffix(l, ".Version()") && ones[rr]) || (strings.HasSuffix(rr, ".Version()") && ones[l]) {
+					okV = true
+				}
 			}
 		}
 		r.Check(okV, rs, "(UUID).Time returns the zero time only for a UUID that is not version 1", "guarded by Version() != 1", "the zero time.Time is returned on a condition other than the version: a genuine time UUID (e.g. one whose timestamp is 0) reads back as 'no time' instead of the instant it encodes")
@@ -886,14 +899,17 @@ func c06r14(p *Program, r *Report) {
 		}
 		// the receive loop takes the call out of the table in order to hand it to its caller (who releases the stream)
 		// or to release it itself when the caller has left: its hand-over is judged by C01.R12 / C06.R4-R5
-		hands := false
-		ast.Inspect(fi.Decl.Body, func(y ast.Node) bool {
-			if snd, isS := y.(*ast.SendStmt); isS && respF != nil && fieldOf(info, snd.Chan) == respF {
-				hands = true
-			}
-			return true
-		})
-		if hands {
+		handsOver := func(info *types.Info, body ast.Node) bool {
+			hands := false
+			ast.Inspect(body, func(y ast.Node) bool {
+				if snd, isS := y.(*ast.SendStmt); isS && respF != nil && fieldOf(info, snd.Chan) == respF {
+					hands = true
+				}
+				return true
+			})
+			return hands
+		}
+		if handsOver(info, fi.Decl.Body) {
 			n++
 			r.OK(fi.Decl, fi.Name+" takes calls out of Conn.calls to hand them over", "the function sends on callReq.resp")
 			return
@@ -957,6 +973,10 @@ func c06r14(p *Program, r *Report) {
 							continue
 						}
 						nsite++
+						if handsOver(cinfo, caller.Decl.Body) {
+							// the receive loop took the call out through the helper: as above
+							continue
+						}
 						cg := p.GraphOf(caller)
 						cstmt := p.stmtOf(cc, caller)
 						csol := Solve(cg, Lattice[int]{
@@ -968,6 +988,9 @@ func c06r14(p *Program, r *Report) {
 							},
 							Eq: func(a, b int) bool { return a == b },
 							Step: func(st int, step Step) int {
+								if st == 1 && connEnds(cinfo, step) {
+									return 0
+								}
 								if step.Kind != StNode {
 									return st
 								}
